@@ -146,6 +146,11 @@ func suiteC10(r *Run) {
 			if err != nil {
 				return err
 			}
+			// the caller goes on using its metadata map once the stream exists (as on a connection, what was sent is sent)
+			if outMD != nil {
+				outMD.Set("late-key", "set-after-newstream")
+				defer delete(outMD, "late-key")
+			}
 			cs.SendMsg(&Msg{})
 			cs.CloseSend()
 			var m Msg
@@ -241,6 +246,9 @@ func suiteC10(r *Run) {
 			if same, why := sameMD(co, rep.incoming); !same {
 				r.Violate("inproc-ctx/incoming-differs-from-outgoing", "the handler sees the caller's outgoing metadata as its incoming metadata", sprintf("caller's outgoing metadata %v, handler's incoming metadata %v (%s)", co, rep.incoming, why), c, mdArg(rep.incoming))
 			}
+		}
+		if rep.hasIn && len(rep.incoming.Get("late-key")) > 0 {
+			r.Violate("inproc-ctx/metadata-shared", "mutating the metadata on either side never affects the other", "a key the caller put into its metadata map after NewStream had returned is in the handler's incoming metadata", c, mdArg(rep.incoming))
 		}
 		if outMD != nil && rep.hasIn {
 			snapshot := rep.incoming.Copy()
